@@ -39,15 +39,19 @@ try:
     # run our check against /repo with the patch applied
     detected = None
     if ok:
+        import fcntl
+        lock = open("/tmp/pv-repo.lock", "w")
+        fcntl.flock(lock, fcntl.LOCK_EX)  # one seeded change in /repo at a time
         rc, out = sh(f"git -C /repo apply {os.path.join(src, 'patch.diff')}")
         try:
             if rc == 0:
-                rcc, outc = sh(f"PV_NO_EVIDENCE=1 ./check {prop}", VERIF)
+                rcc, outc = sh(f"PV_NO_EVIDENCE=1 ./check {prop}", os.environ.get("KEEP_CHECK_DIR", VERIF))
                 keys = [l.split("key=")[1] for l in outc.splitlines() if l.startswith("REPORT ")]
                 detected = dict(exit=rcc, keys=keys[:8])
                 ran.append(f"./check {prop} on /repo with the change applied: exit {rcc}, reports {keys[:4]}")
         finally:
             sh("git -C /repo checkout -- .")
+            fcntl.flock(lock, fcntl.LOCK_UN)
     print(json.dumps(dict(name=name, confirmed=ok, detected=detected, ran=ran), indent=1))
     if ok:
         dst = os.path.join(VERIF, "seeded", name)
